@@ -6,6 +6,7 @@ setUp / body / tearDown / c1.. (user cleanups).  Every unit body interprets its 
 execution log, attribute snapshots and exception markers are written by the generated code itself."""
 
 import sys
+import unittest
 
 import fixtures
 import testtools
@@ -40,6 +41,10 @@ class SubKI(KeyboardInterrupt):
 
 class Abort(BaseException):
     """A user-defined exception that does not derive from Exception (like asyncio.CancelledError, GeneratorExit)."""
+
+
+class Custom4Exc(Exception):
+    """custom4: its (failure) handler is inserted into exception_handlers by setUp, i.e. while the test runs."""
 
 
 class Base3(Exception):
@@ -120,7 +125,7 @@ def name_str(b, n):
 
 
 MISMATCH_DETAILS = {"m0": [], "m1": ["diff"], "m2": ["traceback", "Failed expectation"]}
-FIXTURE_DETAILS = {"f_ok": ["fxd"], "f_tb": ["traceback"], "f_two": ["traceback", "traceback-1"], "f_bad": ["fxd"], "f_cr": ["fxd"], "f_gr": ["fxd"], "f_nest": ["fxd"], "f_nestbad": ["fxd"], "f_nestcr": ["fxd"]}
+FIXTURE_DETAILS = {"f_ok": ["fxd"], "f_tb": ["traceback"], "f_two": ["traceback", "traceback-1"], "f_bad": ["fxd"], "f_cr": ["fxd"], "f_gr": ["fxd"], "f_nest": ["fxd"], "f_nestbad": ["fxd"], "f_nestcr": ["fxd"], "f_classic": ["fxd"]}
 
 
 class SynthMismatch(Mismatch):
@@ -173,6 +178,22 @@ class ChildFixture(fixtures.Fixture):
         env = self.parent.env
         env.nraised += 1
         raise RuntimeError("MARK-fxclean:%s-%d" % (self.parent.f, env.nraised))
+
+
+class ClassicFixture(fixtures.Fixture):
+    """Old-style fixture that overrides setUp(): attaches a detail, then is interrupted."""
+
+    def __init__(self, env, f):
+        super().__init__()
+        self.env = env
+        self.f = f
+
+    def setUp(self):
+        super().setUp()
+        cid = "fx:%s:fxd" % self.f
+        self.addDetail("fxd", fixed_content(cid))
+        self.env.nraised += 1
+        raise KeyboardInterrupt("MARK-%s-%d" % (self.env.current_unit, self.env.nraised))
 
 
 class SynthFixture(fixtures.Fixture):
@@ -255,6 +276,8 @@ def make_exc(case, env, unit, kind):
         return Abort(mark)
     if kind == "custom3":
         return Sub3(mark)
+    if kind == "custom4":
+        return Custom4Exc(mark)
     raise ValueError(kind)
 
 
@@ -316,6 +339,9 @@ class SynthBase(testtools.TestCase):
         env.epoch += 1
         env.current_unit = unit
         upcalled = False
+        if unit == "setUp":
+            # "This list is able to be modified at any time": a handler inserted while the test is running
+            self.exception_handlers.insert(0, (Custom4Exc, _custom_handler))
 
         def upcall():
             nonlocal upcalled
@@ -350,7 +376,7 @@ class SynthBase(testtools.TestCase):
                 env.note_framework("TestCase.%s was not called" % unit, unit, env.nraised)
                 return
             elif op == "failfixture":
-                self.useFixture(SynthFixture(env, a))
+                self.useFixture(ClassicFixture(env, a) if a == "f_classic" else SynthFixture(env, a))
                 env.anomalies.append("failfixture did not raise in %s" % unit)
                 return
             elif op == "raise":
@@ -399,6 +425,14 @@ class SynthRunTestWith(SynthBase):
     """Same test, but the method carries @run_test_with(RunTest) (the runner is made by the decorator's factory)."""
 
     @testtools.run_test_with(testtools.RunTest)
+    def test_body(self):
+        self._body()
+
+
+class SynthExpectedFailure(SynthBase):
+    """The test method carries unittest's expectedFailure decorator."""
+
+    @unittest.expectedFailure
     def test_body(self):
         self._body()
 
